@@ -152,10 +152,9 @@ DoRm(s, args) ==
         ELSE IF \E a \in A : SelTracked(s, a) = {} THEN Refuse(s)
         ELSE R([s EXCEPT !.idx = MkIdx({x \in IdxPairs(s.idx) : x[1] \notin Rm}), !.wt = Drop(s.wt, Rm)], "ok")
 
-DoCommit(s, e, n) ==
+DoCommitT(s, e, n, bt) ==
     LET hb == HeadBranch(s)
         D == Diff(HeadSnap(s), IdxPairs(s.idx))
-        bt == BuildTree(IdxPairs(s.idx))
         parent == IF hb \in Branches(s) THEN <<s.refs[hb]>> ELSE <<>>
         cid == "k" \o ToString(n + 1)
         co == [k |-> "commit", ok |-> TRUE, tree |-> bt.id, parents |-> parent, author |-> SignOf(s, e), committer |-> SignOf(s, e),
@@ -165,6 +164,8 @@ DoCommit(s, e, n) ==
         ELSE R([s EXCEPT !.objs = Merge(Merge(s.objs, bt.objs), Put(<<>>, cid, co)),
                          !.refs = Put(s.refs, hb, cid),
                          !.hlog = Append(s.hlog, LogRec(from, cid, "commit", Subject(e.msg)))], "ok")
+
+DoCommit(s, e, n) == DoCommitT(s, e, n, BuildTree(IdxPairs(s.idx)))
 
 BlobData(s, id) == Obj(s, id).d
 
@@ -286,21 +287,23 @@ Init ==
     /\ nk = 0
     /\ hist = <<>>
 
-Next ==
-    \E e \in Events :
-        LET r == Step(st, e, nk) IN
-        /\ st' = r.st
-        /\ last' = e @@ [res |-> r.res]
-        /\ nk' = IF e.ev = "commit" /\ r.res = "ok" THEN nk + 1 ELSE nk
-        /\ hist' = Append(hist, e)
+(* (r is an argument, not a LET: TLC evaluates an argument once but a LET definition at every reference) *)
+Apply(e, r) ==
+    /\ st' = r.st
+    /\ last' = e @@ [res |-> r.res]
+    /\ nk' = IF e.ev = "commit" /\ r.res = "ok" THEN nk + 1 ELSE nk
+    /\ hist' = Append(hist, e)
+
+Next == \E e \in Events : Apply(e, Step(st, e, nk))
 
 Spec == Init /\ [][Next]_vars
 
 ----------------------------------------------------------------------------
 (* The model satisfies the declarative clauses on every step (action property). *)
-FailedOn(s, e, t) ==
-    LET cs == AllClauses(s, e, t) IN {cs[i].n : i \in {j \in 1..Len(cs) : cs[j].a /\ ~cs[j].ok}}
-StepOK == [][LET F == FailedOn(Line(st), last', Line(st')) IN F = {} \/ (PrintT(<<"FAILED-CLAUSES", F, last'>>) /\ FALSE)]_vars
+FailedIn(cs) == {cs[i].n : i \in {j \in 1..Len(cs) : cs[j].a /\ ~cs[j].ok}}
+FailedOn(s, e, t) == FailedIn(AllClauses(s, e, t))
+NoneFailed(F, e) == F = {} \/ (PrintT(<<"FAILED-CLAUSES", F, e>>) /\ FALSE)
+StepOK == [][NoneFailed(FailedOn(Line(st), last', Line(st')), last')]_vars
 
 (* invariants of the model (design level) *)
 InvConnected == Connected(st)
@@ -308,9 +311,8 @@ InvCanonical == IdxCanonical(st.idx)
 InvNoMeta == \A p \in IdxPaths(st.idx) : ~InMeta(p)
 InvRoundTrip == HeadHasCommit(st) => TreeWellFormed(Obj(st, HeadTree(st)))
 (* flattening the tree built from the staging area gives back the staging area, for every reachable staging area *)
-InvTreeOf ==
-    LET bt == BuildTree(IdxPairs(st.idx)) IN
-    Flatten([st EXCEPT !.objs = Merge(st.objs, bt.objs)], bt.id) = IdxPairs(st.idx)
+TreeRoundTrip(bt) == Flatten([st EXCEPT !.objs = Merge(st.objs, bt.objs)], bt.id) = IdxPairs(st.idx)
+InvTreeOf == TreeRoundTrip(BuildTree(IdxPairs(st.idx)))
 
 (* Edge emitter: one JSON line per generated transition, consumed by the tour replayer.  hist is the *)
 (* representative path of the source state (VIEW hides it), so the emitted paths are prefix-closed: *)
